@@ -4,6 +4,7 @@ from rules import v1model
 from spec import tables
 
 LEVEL = 'other'
+FIXTURES = ['F3']
 H1, H2, TLV = tables.V1_HEADER, tables.V2_HEADER, 'v2::model::TypeLengthValue<>'
 
 
